@@ -502,7 +502,7 @@ fn c19_policy_statement_matches_only_whom_and_what_it_names() {
 // naming two groups only reached members of both; with 0..1-element lists the two readings coincide)
 // @check id=C19 tier=quick cap=600 role=statement_matches_multi_name_lists
 // @fns governance::decision::EffectiveAuthority::statement_matches
-// @bound statement groups list of exactly two one-byte labels and principals list of 0 or 2 labels (symbolic); caller principal id symbolic, caller in 1..2 groups (symbolic labels); any action, any resource, no conditions
+// @bound statement groups list of exactly two one-byte labels and principals list of 0 or 2 labels (symbolic); caller principal id symbolic, caller in 1..2 groups (symbolic labels); action list [] / [update, create] / [update, read] against `read`; any resource, no conditions
 // @stubs alloc::fmt::format -> String::new()
 #[kani::proof]
 #[kani::unwind(8)]
@@ -511,10 +511,17 @@ fn c19_statement_naming_two_groups_reaches_members_of_either() {
     let g = [lab(), lab()];
     let two_principals: bool = kani::any();
     let p = [lab(), lab()];
+    let act: u8 = kani::any();
+    kani::assume(act < 3);
     let st = PolicyStatement {
         effect: "deny".to_string(),
         principals: if two_principals { vec![p[0].clone(), p[1].clone()] } else { vec![] },
         groups: vec![g[0].clone(), g[1].clone()],
+        actions: match act {
+            0 => vec![],
+            1 => vec!["update".to_string(), "create".to_string()],
+            _ => vec!["update".to_string(), "read".to_string()],
+        },
         ..Default::default()
     };
     let me = lab();
@@ -534,9 +541,11 @@ fn c19_statement_naming_two_groups_reaches_members_of_either() {
     let member = |x: u8| x == b(&mine[0]) || (in_two && x == b(&mine[1]));
     let group_hit = member(b(&g[0])) || member(b(&g[1]));
     let named = !two_principals || b(&p[0]) == b(&me) || b(&p[1]) == b(&me);
-    assert!(got == (group_hit && named), "a statement that lists several groups (principals) applies to a member of ANY listed group (to ANY listed principal)");
+    let acts = act != 1;
+    assert!(got == (group_hit && named && acts), "a statement that lists several groups (principals, actions) applies to a member of ANY listed group (to ANY listed principal, for ANY listed action)");
+    kani::cover!(got && act == 2, "the permission is the second of two listed actions");
     kani::cover!(got && !(member(b(&g[0])) && member(b(&g[1]))), "member of only one of the two listed groups is reached");
     kani::cover!(got && two_principals && b(&p[0]) != b(&me), "second listed principal is reached");
-    kani::cover!(!got && named, "member of neither group is not reached");
+    kani::cover!(!got && named && acts, "member of neither group is not reached");
     std::mem::forget((st, ea, res, auth, now, me, g, p, mine));
 }
